@@ -63,7 +63,7 @@ Panics == Res("panic", EmptyFn, {})
 
 SliceBounds(e, len) ==
     \* effective [begin, end) of Bytes::slice for the four range shapes; end = -1: overflow
-    CASE Mode(e) = 1 -> <<X(e), len>>
+    CASE Mode(e) \in {1, 5} -> <<X(e), len>>
       [] Mode(e) = 2 -> <<0, Y(e)>>
       [] Mode(e) = 3 -> <<X(e), IF Y(e) >= MAXW THEN -1 ELSE Y(e) + 1>>
       [] OTHER -> <<X(e), Y(e)>>
